@@ -33,4 +33,27 @@ def run_all():
     pc = astx.path_condition(fn, ret, pm)
     if len(pc) != 2:
         bad.append("astx: path condition with early exit")
+    # order pipeline
+    from . import orderpipe
+    fn = ast.parse("def f(b):\n    out = []\n    for s in b.ranking:\n        out.append(frozenset(s))\n    good = tuple(out)\n    bad = tuple(sorted(out))\n    return good, bad\n").body[0]
+    op = orderpipe.OrderPipe(fn)
+    if op.classify(ast.parse("good", mode="eval").body)[0] != orderpipe.ORD or op.classify(ast.parse("bad", mode="eval").body)[0] != orderpipe.UNORD:
+        bad.append("orderpipe: accumulator / sorted classification")
+    # reaching definitions incl. loop-carried
+    fn = ast.parse("def f(xs, p):\n    pop = list(xs)\n    for i in range(3):\n        pop = draw(pop, p)\n        use(pop)\n").body[0]
+    use = [n for n in ast.walk(fn) if isinstance(n, ast.Call) and getattr(n.func, 'id', '') == 'draw'][0]
+    if len(astx.reaching_defs(fn, "pop", use)) != 2:
+        bad.append("astx: loop-carried reaching definition")
+    # numeric kinds
+    from . import numkind
+    if numkind.arith(ast.Div(), numkind.K({numkind.INT}), numkind.K({numkind.INT})).kinds != {numkind.FLIB}:
+        bad.append("numkind: int/int must be a library-created float")
+    if numkind.arith(ast.Div(), numkind.K({numkind.FRAC}), numkind.K({numkind.INT})).kinds != {numkind.FRAC}:
+        bad.append("numkind: Fraction/int must stay exact")
+    # concatenation is not commutative, addition is
+    n = algebra.Normalizer(None, inline=False)
+    if n.key(ast.parse("a[i:] + a[:i]", mode="eval").body) == n.key(ast.parse("a[:i] + a[i:]", mode="eval").body):
+        bad.append("algebra: sequence concatenation treated as commutative")
+    if n.key(ast.parse("x + y", mode="eval").body) != n.key(ast.parse("y + x", mode="eval").body):
+        bad.append("algebra: addition not commutative")
     return bad
